@@ -13,6 +13,7 @@ A *spec* is a plain dict (python objects, tuples for edges):
   cons     list of constraints; a constraint is a list (well-formed) or a tuple (malformed) of items;
            an item is a 2-tuple edge (edge mode), a node name (node mode), or something else (malformed)
   cov      number
+  ign_pct, trust_pct   None | number   elements_to_ignore_percentile (kMinPathErrorCycles) / trusted_edges_for_safety_percentile
   cov_len  None | number            subpath_constraints_coverage_length (DAG models)
   len_attr bool                     a length_attr is passed
   ign      list of elements to ignore (edges or nodes)
@@ -115,7 +116,8 @@ def gen_valid(rng, cls):
     spec = {"cls": cls, "nodes": nodes, "origin": origin, "wtype": rng.choice(["float", "int"]),
             "edges": [(u, v, ew[(u, v)]) for (u, v) in G.edges()],
             "node_w": {v: nw[v] for v in nodes} if origin == "node" else {},
-            "k": None, "cons": [], "cov": 1.0, "cov_len": None, "len_attr": False, "ign": [], "starts": [], "ends": []}
+            "k": None, "cons": [], "cov": 1.0, "cov_len": None, "len_attr": False, "ign": [], "starts": [], "ends": [],
+            "ign_pct": None, "trust_pct": None}
     if cls in HAS_K:
         spec["k"] = len(routes) + rng.choice([0, 0, 1])
     # constraints from actual routes
@@ -142,6 +144,12 @@ def gen_valid(rng, cls):
         else:
             if len(nodes) >= 2:
                 spec["ign"] = [rng.choice(nodes)]
+    # percentile parameters of the cyclic error models (elements_to_ignore_percentile excludes elements_to_ignore)
+    if cls in ("kMinPathErrorCycles", "kLeastAbsErrorsCycles") and rng.random() < 0.45:
+        if cls == "kMinPathErrorCycles" and rng.random() < 0.7:
+            spec["ign"] = []; spec["ign_pct"] = rng.choice([0, 10, 25, 50])
+        if rng.random() < 0.5:
+            spec["trust_pct"] = rng.choice([0, 25, 50, 100])
     # additional starts / ends (only where the class supports them in this mode)
     if cls in HAS_STARTS and rng.random() < 0.25:
         ok = True
@@ -225,6 +233,42 @@ def _weighted_elems(spec):
 
 def v_nonstr(spec, rng):
     old = rng.choice(spec["nodes"]); _rename(spec, old, 7); return True
+
+def v_selfloop(spec, rng):
+    """the only cycle is a self-loop (on a source, an inner node or a sink); flow conservation is kept"""
+    have = {(u, v) for (u, v, _) in spec["edges"]}
+    cand = [x for x in spec["nodes"] if (x, x) not in have]
+    if not cand:
+        return False
+    x = rng.choice(cand)
+    spec["edges"].append((x, x, rng.randint(1, 3)))
+    return True
+
+def v_ignpct_bad(spec, rng):
+    if spec["cls"] != "kMinPathErrorCycles": return False
+    spec["ign"] = []; spec["ign_pct"] = rng.choice([-5, 101, 250]); return True
+def v_ignpct_with_ign(spec, rng):
+    if spec["cls"] != "kMinPathErrorCycles": return False
+    spec["ign_pct"] = rng.choice([10, 50])
+    if not spec["ign"]:
+        spec["ign"] = [_good_item(spec, rng)]
+    return True
+def v_trustpct_bad(spec, rng):
+    if spec["cls"] not in ("kMinPathErrorCycles", "kLeastAbsErrorsCycles"): return False
+    spec["trust_pct"] = rng.choice([-1, 100.5, 300]); return True
+
+def v_missing_with_ignpct(spec, rng):     # a missing weight on a non-ignored edge together with a valid elements_to_ignore_percentile
+    if spec["cls"] != "kMinPathErrorCycles" or spec["origin"] != "edge": return False
+    spec["ign"] = []; spec["ign_pct"] = rng.choice([10, 25, 50, 75])
+    return v_missing(spec, rng)
+def v_missing_with_trustpct(spec, rng):
+    if spec["cls"] not in ("kMinPathErrorCycles", "kLeastAbsErrorsCycles") or spec["origin"] != "edge": return False
+    spec["trust_pct"] = rng.choice([0, 25, 50, 100])
+    return v_missing(spec, rng)
+def v_neg_with_trustpct(spec, rng):
+    if spec["cls"] not in ("kMinPathErrorCycles", "kLeastAbsErrorsCycles") or spec.get("ign_pct") is not None: return False
+    spec["trust_pct"] = rng.choice([0, 25, 50, 100])
+    return v_neg(spec, rng)
 
 def v_cycle(spec, rng):
     """close a cycle, keeping conservation: add (v,u) with weight c and add c to (u,v)"""
@@ -379,7 +423,9 @@ def v_ign_absent_node(spec, rng):
     if spec["origin"] != "node": return False
     spec["ign"] = spec["ign"] + ["zz_absent"]; return True
 
-VIOL = {"cov0_with_len": v_cov0_with_len, "covneg_with_len": v_covneg_with_len, "covbig_with_len": v_covbig_with_len,
+VIOL = {"missing_with_ignpct": v_missing_with_ignpct, "missing_with_trustpct": v_missing_with_trustpct,
+        "neg_with_trustpct": v_neg_with_trustpct, "selfloop": v_selfloop, "ignpct_bad": v_ignpct_bad, "ignpct_with_ign": v_ignpct_with_ign, "trustpct_bad": v_trustpct_bad,
+        "cov0_with_len": v_cov0_with_len, "covneg_with_len": v_covneg_with_len, "covbig_with_len": v_covbig_with_len,
         "covlen0_nocons": v_covlen0_nocons, "covlen_big_nocons": v_covlen_big_nocons, "covlen0": v_covlen0, "covlen_big": v_covlen_big, "covlen_no_attr": v_covlen_no_attr, "covlen_and_cov": v_covlen_and_cov,
         "nonstr": v_nonstr, "cycle": v_cycle, "nosource": v_nosource, "nosink": v_nosink, "neg": v_neg,
         "missing": v_missing, "noncons": v_noncons, "cons_absent": v_cons_absent, "cons_tuple": v_cons_tuple,
@@ -391,7 +437,10 @@ VIOL = {"cov0_with_len": v_cov0_with_len, "covneg_with_len": v_covneg_with_len, 
 
 def violations_for(cls):
     vs = ["nonstr"]
-    if cls in NEEDS_DAG: vs.append("cycle")
+    if cls in NEEDS_DAG: vs += ["cycle", "selfloop"]
+    if cls == "kMinPathErrorCycles": vs += ["ignpct_bad", "ignpct_with_ign"]
+    if cls in ("kMinPathErrorCycles", "kLeastAbsErrorsCycles"): vs += ["trustpct_bad", "missing_with_trustpct", "neg_with_trustpct"]
+    if cls == "kMinPathErrorCycles": vs.append("missing_with_ignpct")
     if cls in IS_CYC: vs += ["nosource", "nosink"]
     if cls in HAS_WEIGHTS: vs += ["neg", "missing"]
     if cls in IS_FD: vs.append("noncons")
@@ -478,6 +527,10 @@ def construct(spec, G=None):
             if spec.get("len_attr"):
                 kw["length_attr"] = "len"
     kw["elements_to_ignore"] = ign
+    if spec.get("ign_pct") is not None:
+        kw["elements_to_ignore_percentile"] = spec["ign_pct"]
+    if spec.get("trust_pct") is not None:
+        kw["trusted_edges_for_safety_percentile"] = spec["trust_pct"]
     if cls != "kFlowDecomp":
         kw["additional_starts"] = st; kw["additional_ends"] = en
     elif st or en:
